@@ -103,6 +103,9 @@ func devMain(args []string) int {
 			fmt.Printf("%-26s ok=%d fail=%d\n", k, cnt[k][0], cnt[k][1])
 		}
 		fmt.Println("blocks", len(g.W.Blocks), "height", g.C.Height)
+		for _, gg := range g.C.App.Rewardskeeper.GetAllGauges(g.ctx()) {
+			fmt.Printf("gauge %d swapfee=%v pool=%d trig=%d dep=%s dist=%s\n", gg.Id, gg.ForSwapFee, gg.GetLiquidityMetaData().PoolId, gg.TriggeredCount, gg.DepositAmount, gg.DistributedAmount)
+		}
 		return 0
 	}
 	if *rt {
